@@ -2,7 +2,7 @@
 
 use std::borrow::Borrow;
 use std::fmt;
-use support::elems::{AKey, AVal, Class, HKey, HVal, NdKey, NdVal, NzVal, TKey, TVal, Tiny, WClass, Word, Z};
+use support::elems::{AKey, AVal, K12, Odd3, Odd6, Class, HKey, HVal, NdKey, NdVal, NzVal, TKey, TVal, Tiny, WClass, Word, Z};
 
 pub trait KeyF: PartialEq + Eq + Sized + Clone + fmt::Debug + fmt::Display + Borrow<Self::Q> + 'static {
     /// borrowed form used for lookups
@@ -24,6 +24,10 @@ pub trait KeyF: PartialEq + Eq + Sized + Clone + fmt::Debug + fmt::Display + Bor
     /// per-object serial number where the type has one outside the ledger (defaults to the ledger id)
     fn serial(&self) -> u64 {
         self.id()
+    }
+    /// the tag a key made with `mk(_, tag)` reports (keys with only a few bits for the tag truncate it)
+    fn norm_tag(tag: u32) -> u32 {
+        tag
     }
 }
 
@@ -473,6 +477,9 @@ impl KeyF for Tiny {
     fn chk(&self, _: &'static str) -> bool {
         true
     }
+    fn norm_tag(tag: u32) -> u32 {
+        tag & 7
+    }
     fn with_q<R>(class: u32, f: impl FnOnce(&Tiny) -> R) -> R {
         f(&Tiny::new(class, 0))
     }
@@ -512,6 +519,9 @@ impl KeyF for Word {
     }
     fn chk(&self, _: &'static str) -> bool {
         true
+    }
+    fn norm_tag(tag: u32) -> u32 {
+        tag & 0xFFFF
     }
     fn with_q<R>(class: u32, f: impl FnOnce(&WClass) -> R) -> R {
         f(&WClass(class | 0x7FFF_0000))
@@ -619,6 +629,112 @@ impl Fam for AlignF {
     type K = AKey;
     type V = AVal;
     const NAME: &'static str = "align";
+    const TRACKED: bool = false;
+    const IDENT: bool = true;
+}
+
+// ---- odd: three-byte key and six-byte value with alignment 1 (9-byte pairs, 3-byte set elements) --------------
+
+impl KeyF for Odd3 {
+    type Q = Odd3;
+    fn mk(class: u32, tag: u32) -> Self {
+        Odd3::new(class, tag)
+    }
+    fn class(&self) -> u32 {
+        Odd3::class(self)
+    }
+    fn tag(&self) -> u32 {
+        Odd3::tag(self)
+    }
+    fn id(&self) -> u64 {
+        0
+    }
+    fn chk(&self, _: &'static str) -> bool {
+        self.intact()
+    }
+    fn norm_tag(tag: u32) -> u32 {
+        tag & 0xFF
+    }
+    fn with_q<R>(class: u32, f: impl FnOnce(&Odd3) -> R) -> R {
+        f(&Odd3::new(class, 0xEE))
+    }
+    fn dbg_render(class: u32, tag: u32) -> String {
+        format!("O{}#{}", class, tag)
+    }
+    fn disp_render(class: u32, tag: u32) -> String {
+        format!("o{}.{}", class, tag)
+    }
+}
+impl ValF for Odd6 {
+    fn mk(payload: u32) -> Self {
+        Odd6::new(payload)
+    }
+    fn payload(&self) -> u32 {
+        self.get()
+    }
+    fn set_payload(&mut self, p: u32) {
+        *self = Odd6::new(p);
+    }
+    fn id(&self) -> u64 {
+        0
+    }
+    fn chk(&self, _: &'static str) -> bool {
+        self.intact()
+    }
+    fn dbg_render(payload: u32) -> String {
+        format!("OV{}", payload)
+    }
+    fn disp_render(payload: u32) -> String {
+        format!("ov{}", payload)
+    }
+    fn default_payload() -> u32 {
+        0
+    }
+}
+pub struct OddF;
+impl Fam for OddF {
+    type K = Odd3;
+    type V = Odd6;
+    const NAME: &'static str = "odd";
+    const TRACKED: bool = false;
+    const IDENT: bool = true;
+    const TAG_MOD: u32 = 250;
+}
+
+// ---- k12: twelve-byte key whose identity tag sits in the trailing four bytes; u32 value ------------------------
+
+impl KeyF for K12 {
+    type Q = Class;
+    fn mk(class: u32, tag: u32) -> Self {
+        K12::new(class, tag)
+    }
+    fn class(&self) -> u32 {
+        self.class
+    }
+    fn tag(&self) -> u32 {
+        self.tag
+    }
+    fn id(&self) -> u64 {
+        0
+    }
+    fn chk(&self, _: &'static str) -> bool {
+        self.fill == 0x1234_5678
+    }
+    fn with_q<R>(class: u32, f: impl FnOnce(&Class) -> R) -> R {
+        f(&Class(class))
+    }
+    fn dbg_render(class: u32, tag: u32) -> String {
+        format!("D{}#{}", class, tag)
+    }
+    fn disp_render(class: u32, tag: u32) -> String {
+        format!("d{}.{}", class, tag)
+    }
+}
+pub struct K12F;
+impl Fam for K12F {
+    type K = K12;
+    type V = u32;
+    const NAME: &'static str = "k12";
     const TRACKED: bool = false;
     const IDENT: bool = true;
 }
